@@ -477,6 +477,16 @@ func checkC18(w *World, r *Report) {
 				return true, ok && b.Op == token.LSS && w.pathOf(b.Y) == "len("+set+")"
 			})
 			okLoop := len(bound) > 0 && g.OnlyVia(bound, n)
+			// the loop is reached on every path of the handler (joins and leaves are independent: a snapshot can bring both)
+			{
+				hdr := make([]bool, len(g.ins))
+				for _, e := range bound {
+					hdr[e.from] = true
+				}
+				if !g.AfterEntry(hdr) {
+					okLoop = false
+				}
+			}
 			// the loop comes back to its bound check after each call (no break)
 			if okLoop && !g.reach(g.succ[n], nil, nil)[bound[0].from] {
 				okLoop = false
@@ -1337,6 +1347,11 @@ func checkC19(w *World, r *Report) {
 				if rq, _, lit := w.structLit(ci.Common().Args[2]); lit && rq != nil && rq.Obj().Name() == "ActivationRequest" && w.pathOf(ci.Common().Args[2]) == "&lit:ActivationRequest{ID=P2.id,Kind=P1}" {
 					okP = true
 				}
+				// ... and it is awaited for the configured request timeout (with a shorter one the caller gives up on an
+				// activation that the other member still completes: an actor nobody knows about)
+				if len(ci.Common().Args) < 4 || w.pathOf(ci.Common().Args[3]) != "P0.cluster.config.requestTimeout" {
+					okP = false
+				}
 			}
 		}
 		{
@@ -1811,6 +1826,29 @@ func checkC19(w *World, r *Report) {
 	// R6: the Cluster facade
 	r.Rule("C19.R6", "Cluster.Activate/Deactivate/GetActiveByID/GetActiveByKind/Spawn talk to the local agent with the caller's arguments; Cluster.Spawn announces the new PID to every member", 6)
 	{
+		// what a member offers is what the cluster has registered when it is asked: Member() is computed from the kinds on
+		// every call (kinds may be registered after a first call and before Start)
+		if mf := w.Method("cluster", "Cluster", "Member"); mf != nil {
+			mg := w.FGI(mf)
+			okF := true
+			detail := ""
+			for _, x := range mg.returns {
+				p := w.pathOf(mg.ins[x].(*ssa.Return).Results[0])
+				if !strings.HasPrefix(p, "&lit:Member{") || !strings.Contains(p, "Kinds=makeslice(len(P0.kinds))") && !strings.Contains(p, "Kinds=") {
+					okF, detail = false, "Member() returns "+p
+				}
+			}
+			for _, in := range mg.ins {
+				if st, ok := in.(*ssa.Store); ok {
+					if fa, ok := st.Addr.(*ssa.FieldAddr); ok && w.pathOf(fa.X) == "P0" {
+						nm, _ := fieldName(fa)
+						okF, detail = false, "Member() writes Cluster."+nm
+					}
+				}
+			}
+			r.Check(okF, "C19.R6", "Cluster.Member:fresh", "Cluster.Member() builds the member info from the currently registered kinds on every call and stores nothing", w.fnPos(mf),
+				detail+": a member info computed before RegisterKind is handed out for good; the member advertises no kinds and nothing can be activated on it")
+		}
 		eSend := w.Method("actor", "Engine", "Send")
 		req := w.Method("actor", "Engine", "Request")
 		type q struct{ m, lit string }
@@ -1929,6 +1967,8 @@ func checkC19(w *World, r *Report) {
 		r.Rule("C19.R7", "the member view the placement works from is exact (set differences by Member.ID, C18.R1/R4); a stream writer that ends tells the router to forget it on every path (C17.R3)", 8)
 		importRules(w, r, checkC18, "C18", "C19.R7", func(o *Obligation) bool { return o.Rule == "C18.R1" || o.Rule == "C18.R4" })
 		importRules(w, r, checkC17, "C17", "C19.R7", func(o *Obligation) bool { return o.Rule == "C17.R3" && strings.Contains(o.Key, "Shutdown") })
+		// a member leaves the view only when the reported address is a member's (C20.R3: GetByHost answers nil otherwise)
+		importRules(w, r, checkC20, "C20", "C19.R7", func(o *Obligation) bool { return o.Rule == "C20.R3" && strings.Contains(o.Key, "GetByHost") })
 	}
 }
 
@@ -2056,6 +2096,16 @@ func checkC20(w *World, r *Report) {
 	importRules(w, r, checkC18, "C18", "C20.R6", func(o *Obligation) bool { return o.Rule == "C18.R4" })
 	// R2, R3, R5: membership protocol of the provider (rules_cluster2.go)
 	checkC20Membership(w, r, recv, smT, addM)
+	checkHandshakesOut(w, r, "C20.R2")
+	if r.Prop == "C20" {
+		// the provider's protocol messages travel through its inbox ring (C14) and through stream writers that the router
+		// forgets when they end (C17.R3), so that a member that comes back on the same address is answered
+		r.Rule("C20.R7", "handshakes and member lists are not lost on the way: ring operations are sound (C14.R1-R5); an ended stream writer is forgotten by the router on every path (C17.R3)", 8)
+		importRules(w, r, checkC14, "C14", "C20.R7", func(o *Obligation) bool {
+			return o.Rule == "C14.R1" || o.Rule == "C14.R2" || o.Rule == "C14.R3" || o.Rule == "C14.R4" || o.Rule == "C14.R5"
+		})
+		importRules(w, r, checkC17, "C17", "C20.R7", func(o *Obligation) bool { return o.Rule == "C17.R3" && strings.Contains(o.Key, "Shutdown") })
+	}
 	// the member list belongs to one provider instance: a Producer value used for two clusters of one process, or a
 	// provider restarted by its supervisor, starts from its own empty list (the agent it reports to starts empty too)
 	{
